@@ -42,9 +42,12 @@ Definition has_f15 (c : ncase) : bool :=
           (n_filter_lies c).
 
 (* A self-consistent filter liar (checkpoints, cfheaders and filter agree)
-   about a coinbase-only block: VerifyBasicBlockFilter skips the coinbase
-   transaction, so the block does not refute the lie and the client falls
-   back to a majority vote among its peers (observation, tag 23). *)
+   about a coinbase-only block: VerifyBasicBlockFilter used to skip the
+   coinbase transaction altogether, so the block did not refute the lie and
+   the client fell back to a majority vote among its peers, which stalls with
+   one honest peer and one liar (tag 23 = root cause F30 of C03, repaired in
+   verification.go: such scenarios now have to converge, a failure is
+   reported with this tag). *)
 Definition has_unprovable_liar (c : ncase) : bool :=
   existsb (fun fl => let '(flags, _) := fl in bit flags 2 && bit flags 4 && bit flags 8) (n_filter_lies c).
 
